@@ -71,12 +71,12 @@ def run(ctx, replay=None):
         ctx.go_test("c03", run="TestReplay$", env={"VERIF_CASES": path, "VERIF_RANDOMIZE": "0"})
         return
     # 1. the laws over the whole enumeration + export of every case with the model's expected results
-    r = ctx.tlc("codec", "MCPrecert", ctx.pick("Precert.cfg", "PrecertFull.cfg"), workers=1, timeout=1500)
+    r = ctx.tlc("codec", "MCPrecert", ctx.pick("MCPrecert.cfg", "MCPrecertFull.cfg"), workers=1, timeout=1500)
     cases = r.records.get("CASE", [])
     if not cases or len(cases) != r.distinct:
         raise Infra("TLC exported %d cases for %d states" % (len(cases), r.distinct))
     ctx.exhaustive = ("all %d cases of MCPrecert (%s) checked against the laws by TLC and replayed into the code"
-                      % (len(cases), ctx.pick("Precert.cfg", "PrecertFull.cfg")))
+                      % (len(cases), ctx.pick("MCPrecert.cfg", "MCPrecertFull.cfg")))
     path = ctx.write_ndjson("cases.ndjson", cases)
     canary = ctx.write_ndjson("canary.ndjson", corrupt(cases))
     # 2. replay into the real code (field tags of the default-encoding cases are re-materialized at random per seed)
